@@ -46,6 +46,7 @@ def case(draw):
         model_nums=draw(st.sampled_from(["from1", "from1", "from9", "descending", "from0", "gaps"])),
         cif_order=draw(st.one_of(st.none(), st.permutations(list(range(21))))),
         cif_omit=[x for x in cifgen.OPTIONAL_ITEMS if draw(st.integers(0, 3)) == 0],
+        cif_rows=draw(st.sampled_from(["by-model", "by-model", "polymer-first", "reversed-models"])),
         alts=[draw(st.integers(0, 500)) for _ in range(draw(st.integers(0, 2)))],
         label_chain=draw(st.sampled_from(["same", "AA", "other"])),
         charges=draw(st.booleans()),
@@ -73,7 +74,7 @@ def atoms_of(case):
             label = {"same": r["chain"], "AA": r["chain"] + "A", "other": "QRS"["AB".index(r["chain"])] if r["chain"] in "AB" else "Z"}[case["label_chain"]]
             base = dict(rec="ATOM", name=r["name"], resn=r["resn"], chain=r["chain"], label_chain=label, seq=r["seq"],
                         icode=r["icode"], b=10.0, elem=r["name"].lstrip("0123456789")[0], model=labels[m - 1],
-                        charge="", pdbcharge="")  # fmt: skip
+                        charge="", pdbcharge="", label_seq=r["group"][2] + 1)  # fmt: skip  (label_seq_id is 1-based, as in wwPDB files)
             if case["charges"] and r["name"] in ("NZ", "OD2", "OE2"):
                 base["charge"] = "1" if r["name"] == "NZ" else "-1"
                 base["pdbcharge"] = "1+" if r["name"] == "NZ" else "1-"
@@ -141,7 +142,7 @@ def check(case):
     has4 = any(len(a["name"]) == 4 for a in atoms)
     feats = dict(alt=bool(case["alts"]), icode=any("icodes" in ch for ch in case["desc"]["chains"]), big=bool(case["big"]),
                  models=case["models"] > 1, label=case["label_chain"] != "same", charge=any(a["charge"] for a in atoms), name4=has4,
-                 layout=bool(case.get("cif_order") or case.get("cif_omit")),
+                 layout=bool(case.get("cif_order") or case.get("cif_omit")) or case.get("cif_rows") == "polymer-first",
                  modelnums=case["models"] > 1 and case.get("model_nums", "from1") != "from1")  # fmt: skip
     res.nontrivial = any(feats.values())
     res.label(*[k for k, v in feats.items() if v], "shim-1.x" if case["shim"] else "native-2.x", f"ff={case['ff']}",
@@ -150,7 +151,11 @@ def check(case):
     install_shim()
     _shim_on["v"] = bool(case["shim"])
     try:
-        r_cif = pipeline.run(cifgen.cif_text(atoms, case.get("cif_order"), case.get("cif_omit") or ()), opts, ext="cif")
+        rows = list(atoms)
+        if case.get("cif_rows") == "polymer-first":
+            # entity-sorted layout: polymer rows of all models first, then the hetero rows of all models
+            rows = [a for a in atoms if a["rec"] == "ATOM"] + [a for a in atoms if a["rec"] != "ATOM"]
+        r_cif = pipeline.run(cifgen.cif_text(rows, case.get("cif_order"), case.get("cif_omit") or ()), opts, ext="cif")
     finally:
         _shim_on["v"] = False
     if not r_pdb.ok:
